@@ -396,6 +396,19 @@ def main() -> int:
         for p in problems:
             rep.violation("free-running threads (with schema generation and lazy conversions): " + p, {"graph": graph, "plan": plan})
     rep.set("free_runs_with_schemas_and_lazy_conversions", n_extra)
+    # ---- every call has a sequential meaning: first uses of fresh classes and calls through shared compiled methods,
+    # from several threads at once, each with data of its own (harness/storm.py)
+    from harness import storm
+
+    storm_calls = 0
+    for k in range(6 if thorough else 2):
+        for p in storm.first_use_storm(4, 60 if thorough else 40, f"s{k}")[:5]:
+            rep.violation("concurrent first uses of fresh classes: " + p, {"round": k})
+        calls, problems = storm.steady_storm(4, 12000 if thorough else 6000, f"s{k}")
+        storm_calls += calls
+        for p in problems[:5]:
+            rep.violation("concurrent calls through shared compiled methods: " + p, {"round": k})
+    rep.set("storm_calls_through_shared_methods", storm_calls)
     wd = tlc.scratch_dir("verifrec_")
     try:
         validated = 0
